@@ -219,6 +219,25 @@ func (d *driver) runMsmCase(w emitter, k int, c *msmCase) {
 				}
 			}
 			e["inputs_unchanged"] = same
+			// the affine-result form of the same call
+			if c.Kind == "api" && err == nil && len(pts) <= 64 && e["panic"] == nil {
+				affs := make([]bandersnatch.PointAffine, len(pts))
+				for i := range pts {
+					affs[i] = affineOf(&pts[i])
+				}
+				func() {
+					defer func() {
+						if r := recover(); r != nil {
+							e["panic"] = fmt.Sprint(r)
+						}
+					}()
+					ra, erra := bandersnatch.MultiExpAffine(affs, scs, bandersnatch.MultiExpConfig{NbTasks: c.Tasks, ScalarsMont: c.Mont})
+					e["aff_err"] = erra != nil
+					if erra == nil {
+						e["aff"] = [][]int{fpReg(&ra.X), fpReg(&ra.Y)}
+					}
+				}()
+			}
 		}
 	case "inner":
 		// the internal entry point: partition for window c, then the chunk/bucket routine for exactly this c
